@@ -231,6 +231,12 @@ pub fn check_hello(ctx: &Ctx, h: &Hello, st: &mut Stats, packets: bool) -> Resul
         Err(e) => return Err(fail!("api:parse-error", "{e} | record {}", hex(&rec))),
     };
     judge(ctx, h, &observe_sig(&sig), st, "api")?;
+    // the one-call API that returns the JA4 string only must tell the same (already judged) string
+    let only = huginn_net_tls::tls_process::parse_tls_client_hello_ja4(&rec);
+    let full = sig.generate_ja4().full.value().to_string();
+    if only.as_deref() != Some(full.as_str()) {
+        return Err(fail!("api:parse_tls_client_hello_ja4-differs", "expected {full} got {:?}", only));
+    }
     if packets {
         // single-segment delivery through the TLS analyzer's packet path and the unified analyzer
         for v4 in [true, false] {
